@@ -14,7 +14,7 @@ pre-existing file content (identical, modified, truncated, longer, anything), ev
 * `accepted_by_size_and_mtime_witness` — the clause "(with verification … or their size/mtime differing)" is needed.
 * `path_confined` — every snapshot path the repaired code accepts (`refused = false`) stays below the destination, for
    every base; `hostile_names_refused` / the `decide`d witnesses show `..`, absolute names and `a/../..` are refused
-   and would have left the destination (unrepaired code: DESIGN §7 #14, fixed by 9ba0b0c).
+   and would have left the destination (unrepaired code: DESIGN §7 #14, fixed by a7b2d5a).
 * `mergewalk_actions` — the merge-walk of `collect_and_prepare` (`Model/RestoreWalk.lean`), for EVERY destination listing, node
    stream, comparison function and option set: every destination entry is disposed of exactly once (matched / additional /
    hidden below an additional directory) and `process_node` runs exactly once per node, both in stream order; an additional
